@@ -89,6 +89,8 @@ FramingFields(r) ==
 Announced(r) == ~("noAnnounce" \in DOMAIN r /\ r.noAnnounce)
 TrailerNames(r) == JoinWith([k \in 1 .. Len(r.trailers) |-> r.trailers[k].name], ", ")
 
+\* optional field noKeepAlive: an HTTP/1.0 request without "Connection: keep-alive" (the connection ends with its response)
+NoKeepAlive(r) == "noKeepAlive" \in DOMAIN r /\ r.noKeepAlive
 \* optional fields clBefore / clAfter (decimal strings): a chunked request that ALSO carries a Content-Length field,
 \* in front of / behind Transfer-Encoding.  Transfer-Encoding overrides it (RFC 7230 3.3.3 (3)); such a request may be
 \* refused, but Content-Length must never decide where it ends
@@ -105,7 +107,7 @@ Head_(r) ==
     \o ClLine(OptStr(r, "clAfter"))
     \o (IF r.trailers # << >> /\ Announced(r) THEN "Trailer: " \o TrailerNames(r) \o CRLF ELSE "")
     \o (IF r.expect100 THEN "Expect: 100-continue" \o CRLF ELSE "")
-    \o (IF r.close THEN "Connection: close" \o CRLF ELSE IF r.ver = "1.0" THEN "Connection: keep-alive" \o CRLF ELSE "")
+    \o (IF r.close THEN "Connection: close" \o CRLF ELSE IF r.ver = "1.0" /\ ~NoKeepAlive(r) THEN "Connection: keep-alive" \o CRLF ELSE "")
     \o CRLF
 
 \* body bytes a..b-1 of request i: the provenance pattern, or -- when the request carries a literal body
@@ -160,5 +162,5 @@ Expected(r, i) ==
      trailers |-> [k \in 1 .. Len(r.trailers) |-> [name |-> r.trailers[k].lname, value |-> r.trailers[k].seen]]]
 
 \* the request asks to close the connection after its response
-AsksClose(r) == r.close
+AsksClose(r) == r.close \/ (r.raw = "" /\ r.ver = "1.0" /\ NoKeepAlive(r))
 =============================================================================
